@@ -51,6 +51,14 @@ func main() {
 			os.Exit(2)
 		}
 		props.ProbeTypeAsserts(p)
+	case "probe-mr":
+		cfg, _ := props.ConfigByName("default")
+		p, err := an.Load("/repo", cfg)
+		if err != nil {
+			fmt.Println(err)
+			os.Exit(2)
+		}
+		props.ProbeMapRanges(p)
 	case "probe-la":
 		cfg, _ := props.ConfigByName("default")
 		p, err := an.Load("/repo", cfg)
